@@ -43,6 +43,7 @@ BareAct ==
     [] Evt.op = "addcol" -> AddCol(Evt.n, Evt.at, Evt.d)
     [] Evt.op = "delrow" -> DelRow(Evt.n, Evt.at)
     [] Evt.op = "delcol" -> DelCol(Evt.n, Evt.at)
+    [] Evt.op = "addtable" -> AddTable
     [] Evt.op = "save"   -> Save
     [] Evt.op = "reopen" -> Reopen
     [] OTHER -> FALSE
@@ -63,8 +64,11 @@ Cut == CASE Evt.op = "addrow" -> AnyCut(merges, "ins", 1, Evt.at, Evt.n) [] Evt.
 LevelBMerges == CASE Evt.op = "addrow" -> InsMerges(merges, 1, Evt.at, Evt.n) [] Evt.op = "addcol" -> InsMerges(merges, 2, Evt.at, Evt.n)
                   [] Evt.op = "delrow" -> DelMerges(merges, 1, Evt.at, Evt.n) [] Evt.op = "delcol" -> DelMerges(merges, 2, Evt.at, Evt.n)
                   [] OTHER -> merges
+\* the picture of a table that was just added: nothing merged, nothing in it
+Pristine(p) == p.bad = 0 /\ Len(p.anchors) = 0 /\ Len(p.place) = 0 /\ Len(p.ranges) = 0 /\ Len(p.cells) = 0
 ExactStep == /\ ~Structural /\ BareAct /\ Exact(Evt.post, grid', merges')
              /\ (Evt.op = "save" => SamePicture(Evt.re, Evt.post))
+             /\ (Evt.op = "addtable" => Pristine(Evt.fresh))
 Matches == ExactStep \/ StructStep
 
 Clause ==
@@ -73,6 +77,7 @@ Clause ==
         ELSE (IF Cut THEN "edit.cut.grid" ELSE "edit.move.grid"))
   ELSE IF ~ENABLED BareAct THEN "not-enabled"
   ELSE IF ~ENABLED (BareAct /\ Exact(Evt.post, grid', merges')) THEN Evt.op \o ".picture"
+  ELSE IF Evt.op = "addtable" THEN "addtable.new-table-not-pristine"
   ELSE "save.reopened-differs"
 
 TInit == /\ tid \in 1..Len(Traces) /\ l = 1
